@@ -397,6 +397,8 @@ def generate(path=None):
                  clist(["(sig_%s, sig_%s)" % (b, t) for b, t in twins]))
     lines.append("Definition std_param_twins : list (schema * schema) :=\n"
                  "  [(sig_create_pipe, sig_create_pipe_from_parameters); (sig_create_pipes, sig_create_pipes_from_parameters)].\n")
+    lines.append("Definition index_len_checked : list string :=\n  %s.\n" %
+                 clist([cstr(x["fn"]) for x in sigs if x["index_len_check"]]))
     return "\n".join(lines), sigs, twins
 
 
